@@ -273,6 +273,13 @@ pub fn run(ctx: &mut Ctx) {
         MV::Str("😀".into()),
         MV::Rec(vec![("".into(), MV::Null), ("1".into(), MV::Bool(true)), ("a b".into(), MV::List(vec![])), ("é".into(), MV::Num(F(1.0))), ("e\u{301}".into(), MV::Num(F(2.0)))]),
         MV::List(vec![MV::List(vec![MV::List(vec![MV::List(vec![MV::List(vec![MV::Rec(vec![])])])])])]),
+        // a string ending in a backslash, then strings / keys that look like JSON with trailing commas
+        MV::Rec(vec![
+            ("x".into(), MV::List(vec![MV::Str("C:\\tmp\\".into()), MV::Str("[1,2,]".into())])),
+            ("y\\".into(), MV::Str("{\"a\":1,}".into())),
+            ("z,]".into(), MV::List(vec![MV::Str(", ]".into()), MV::Str(",}".into())])),
+        ]),
+        MV::List(vec![MV::Str("\\".into()), MV::Str("a,]".into()), MV::Str("\\\\".into()), MV::Str("b, }".into())]),
         MV::Rec(vec![("__blots_function".into(), MV::Num(F(1.0)))]),
         MV::Rec(vec![("a".into(), MV::Num(F(1.0))), ("__blots_function".into(), MV::Null), ("b".into(), MV::Str("x".into()))]),
         MV::List(vec![MV::Rec(vec![("k".into(), MV::Rec(vec![("__blots_function".into(), MV::List(vec![MV::Str("x => x".into())])), ("z".into(), MV::Bool(true))]))])]),
